@@ -38,7 +38,7 @@ type PayoutMon struct {
 	due  []dueTimer
 	paid map[string]int // (sub,provider,chain,subBlock) -> block height it was paid at
 
-	Payouts, ZeroCuMonths, ZeroCuGone, Capped, ProvidersPaid int
+	Payouts, ZeroCuMonths, ZeroCuGone, Capped, ProvidersPaid, ListDiffers int
 }
 
 func (m *PayoutMon) wit(s *Sim, step int) map[string]any {
@@ -51,6 +51,7 @@ func (m *PayoutMon) BeforeBlock(s *Sim) {
 	m.due = nil
 	h := uint64(ctx.BlockHeight()) // EndBlock of the current block runs with this height
 	gs := ks.Subscription.ExportCuTrackerTimers(ctx)
+	raw := ks.Subscription.ExportCuTrackers(ctx)
 	for _, e := range gs.BlockEntries {
 		if e.Value > h {
 			continue
@@ -60,11 +61,36 @@ func (m *PayoutMon) BeforeBlock(s *Sim) {
 			continue
 		}
 		d := dueTimer{consumer: e.Key, expiry: e.Value, subBlock: td.Block, credit: td.Credit.Amount, cus: map[string]uint64{}}
-		list, total := ks.Subscription.GetSubTrackedCuInfo(ctx, e.Key, td.Block)
-		for _, x := range list {
-			d.cus[x.Provider+" "+x.ChainID] = x.TrackedCu
+		// the tracked CU of that month is read from the raw tracker store (every stored version of every index of the
+		// consumer whose version block is the month's subscription block and that is not deleted), not through the
+		// lookup the payout itself uses
+		for _, ge := range raw.Entries {
+			sub, prov, chain := subscriptiontypes.DecodeCuTrackerKey(ge.Index)
+			if sub != e.Key {
+				continue
+			}
+			for _, re := range ge.Entries {
+				if re.Block != td.Block || re.DeleteAt <= h {
+					continue
+				}
+				var tc subscriptiontypes.TrackedCu
+				if err := tc.Unmarshal(re.Data); err != nil {
+					continue
+				}
+				d.cus[prov+" "+chain] = tc.Cu
+				d.total += tc.Cu
+			}
 		}
-		d.total = total
+		list, total := ks.Subscription.GetSubTrackedCuInfo(ctx, e.Key, td.Block)
+		same := total == d.total && len(list) == len(d.cus)
+		for _, x := range list {
+			if d.cus[x.Provider+" "+x.ChainID] != x.TrackedCu {
+				same = false
+			}
+		}
+		if !same {
+			m.ListDiffers++
+		}
 		next := ks.Epochstorage.GetCurrentNextEpoch(ctx)
 		if sub, _, found := ks.Subscription.GetSubscriptionForBlock(ctx, e.Key, next); found {
 			d.subFound, d.subCredit = true, sub.Credit.Amount
@@ -200,6 +226,13 @@ func (m *PayoutMon) AfterBlock(s *Sim, b *BlockRes) {
 				}
 			}
 		}
+		for _, a := range e.Attributes {
+			if mm := cuRewardRe.FindStringSubmatch(a.Value); mm != nil {
+				if _, tracked := d.cus[a.Key]; !tracked {
+					m.Run.Violation("paid-without-tracked-cu-in-that-month", "payout pays a (provider, chain) that has no tracked CU in the month being paid", fmt.Sprintf("block %d consumer %s month (sub block) %d: %s -> %s; tracked that month: %v", b.Height, d.consumer, d.subBlock, a.Key, a.Value, d.cus), m.wit(s, b.Step))
+				}
+			}
+		}
 		if tr, ok := evAttr(e, "total_rewards"); ok {
 			got, okk := sdk.NewIntFromString(tr)
 			if okk && !got.Equal(wantTotal) {
@@ -263,6 +296,7 @@ func TestC11(t *testing.T) {
 		run.Count("zero_cu_months_subscription_gone", pm.ZeroCuGone)
 		run.Count("payouts_capped_by_per_cu_limit", pm.Capped)
 		run.Count("provider_shares_checked", pm.ProvidersPaid)
+		run.Count("due_lists_where_the_keeper_lookup_differs_from_the_raw_store", pm.ListDiffers)
 		if h == 0 {
 			run.Sample(map[string]any{"history": 0, "tail": s.LogTail(10)})
 		}
@@ -270,6 +304,6 @@ func TestC11(t *testing.T) {
 	run.Require("payouts with tracked CU", run.Counter("payouts_with_tracked_cu") > 5)
 	run.Require("zero-CU months", run.Counter("zero_cu_months") > 0)
 	run.Require("provider shares checked", run.Counter("provider_shares_checked") > 5)
-	run.Finish("histories with subscriptions, relays to several providers / chains per subscription, upgrades and expiries inside the payout window; before each block the cu-tracker timers due in its EndBlock and the tracked CU they will pay are snapshotted; after it: subscription-module outflow (bank flow log) <= sum of the credits due, each provider's reward + delegators part <= floor(min(credit, 100*totalCU)*cu/totalCU) and == that minus the validators / community participation when the spec has no contributors, total_rewards == sum of floor shares, a (subscription, provider, chain, month) key is paid at most once, a zero-CU month returns its credit to the subscription or the validators pool; distinct non-trivial = payouts and zero-CU months judged", 20,
+	run.Finish("histories with subscriptions, relays to several providers / chains per subscription, upgrades and expiries inside the payout window; before each block the cu-tracker timers due in its EndBlock are snapshotted together with the tracked CU of their month, read from the raw tracker store (versions whose block is the month's subscription block); after it: subscription-module outflow (bank flow log) <= sum of the credits due, each provider's reward + delegators part <= floor(min(credit, 100*totalCU)*cu/totalCU) and == that minus the validators / community participation when the spec has no contributors, total_rewards == sum of floor shares, a (subscription, provider, chain, month) key is paid at most once, a zero-CU month returns its credit to the subscription or the validators pool; distinct non-trivial = payouts and zero-CU months judged", 20,
 		"participation percentages are read from the keeper after the block (parameters do not change inside the payout)")
 }
